@@ -24,6 +24,7 @@ pub fn configs(tier: Tier) -> Vec<OutCfg> {
             vec![st(1, 1), st(0, 1)],
             vec![SK::Q1LongTopic, SK::Q1, SK::Q0],
             vec![SK::Q1LongProp, SK::Q1, SK::Q0],
+            vec![SK::Q1Prop127, SK::Q0],
             vec![SK::HugeThenTooLong, SK::Q1, SK::Q0],
             vec![SK::Q1Id(5), SK::Q1Id(5), SK::Q0],
             vec![SK::Q1Big, st(0, 1)],
@@ -109,7 +110,7 @@ pub fn run(tier: Tier) -> i32 {
     for (i, c) in configs(tier).iter().enumerate() {
         ck.explore::<Out>("outbound", i, c, &ecfg);
     }
-    ck.rule = "per role: 2-3 application operations over {QoS 0/1/2 sends, QoS 1 through the non-blocking API, streamed sends (stream_at_most_once / stream_at_least_once of 6 bytes with chunk plans: exact in one, exact in two, second chunk one byte too long, half then dropped), subscribe/unsubscribe, sends that must fail locally: 65536-byte topic, 65536-byte property, a failure after a field larger than a buffer page, over the peer's maximum packet size, packet id in use (publish, subscribe, unsubscribe with caller-chosen ids), over-long filter}; every chunk is released by an explorer event so other sends, peer acknowledgements, one inbound PINGREQ / QoS 1 PUBLISH (dispatcher response), an application close(), or a peer fault that ends the connection on an error path (undecodable bytes, protocol-violating packet, DISCONNECT) interleave everywhere; plus sender sets with a write back-pressure episode (24-byte QoS 0 publish over a 16-byte write buffer, peer not reading) so that a stream chunk parks on it; oracle: the wire parses with the independent decoder as whole packets (a truncated tail only as the streamed PUBLISH of an aborted transport), Ok <-> exactly one packet, local Err <-> no bytes, streamed payload = accepted chunks with the declared size".into();
+    ck.rule = "per role: 2-3 application operations over {QoS 0/1/2 sends, QoS 1 through the non-blocking API, streamed sends (stream_at_most_once / stream_at_least_once of 6 bytes with chunk plans: exact in one, exact in two, second chunk one byte too long, half then dropped), subscribe/unsubscribe, a publish whose properties add up to exactly 127 bytes, sends that must fail locally: 65536-byte topic, 65536-byte property, a failure after a field larger than a buffer page, over the peer's maximum packet size, packet id in use (publish, subscribe, unsubscribe with caller-chosen ids), over-long filter}; every chunk is released by an explorer event so other sends, peer acknowledgements, one inbound PINGREQ / QoS 1 PUBLISH (dispatcher response), an application close(), or a peer fault that ends the connection on an error path (undecodable bytes, protocol-violating packet, DISCONNECT) interleave everywhere; plus sender sets with a write back-pressure episode (24-byte QoS 0 publish over a 16-byte write buffer, peer not reading) so that a stream chunk parks on it; oracle: the wire parses with the independent decoder as whole packets (a truncated tail only as the streamed PUBLISH of an aborted transport), Ok <-> exactly one packet, local Err <-> no bytes, streamed payload = accepted chunks with the declared size".into();
     ck.assumptions = vec![
         "FIFO task order of ntex-rt; nondeterminism = timing of environment events (DESIGN 2.4)".into(),
         "chunk bytes 0xD0.. and topic tags identify which operation a wire packet belongs to".into(),
